@@ -1151,6 +1151,27 @@ def default_models():
         x, = a
         yield p, I(T.ite(T.cmp('<', x.t, C(0)), T.sub(C(0), x.t), x.t), 'u' + x.ty[1:])
 
+    def closure_fn(e, callee, k=-1):
+        cl = re.findall(r'\{closure@[^}]*\}', callee)
+        if not cl: raise NotImplementedError('closure in ' + callee)
+        cands = [f for n, f in e.mir.fns.items() if f.sig.startswith('_1: ' + cl[k])]
+        if not cands: raise NotImplementedError('closure body for ' + cl[k])
+        return cands[0]
+
+    @reg(r'Result::<.*>::map::<')
+    def _(e, c, a, p):
+        r = a[0]
+        if r.var != 'Ok': yield p, r; return
+        for p2, rv in e.run(closure_fn(e, c), [Opaque('closure'), r.fields[0]], p, _top=False):
+            yield p2, (rv if isinstance(rv, Panic) else E('Ok', [rv]))
+
+    @reg(r'Result::<.*>::map_err::<')
+    def _(e, c, a, p):
+        r = a[0]
+        if r.var == 'Ok': yield p, r; return
+        for p2, rv in e.run(closure_fn(e, c), [Opaque('closure'), r.fields[0]], p, _top=False):
+            yield p2, (rv if isinstance(rv, Panic) else E('Err', [rv]))
+
     @reg(r'Arguments::<.*>::(from_str|new_const|new_v1)')
     def _(e, c, a, p):
         yield p, Opaque('fmt::Arguments')
